@@ -24,6 +24,12 @@ fams = [
     dict(name='hour3-ttl3-legacy-utc', unit='HOUR', init=3, nums=[3], ttl=3, zone=UTC, times=[30, 33, 35], clocks=[30, 35, 36, 37, 38, 39],
          legacy=[[], [(31, 32)]], ranges=[(30, 36)], ops=OPS, maxops=5),
 ]
+# the tick path (database.Tick -> rotation goroutine): retention with the event time and creation of the next segment
+# one hour before the newest one ends
+fams.append(dict(name='hour2-ttl3-tick-utc', unit='HOUR', init=2, nums=[2], ttl=3, zone=UTC, times=[30, 32], clocks=[30, 31, 33, 34, 35, 36, 37, 39],
+                 legacy=[[]], ranges=[(30, 37)], ops=['create', 'tick', 'select', 'clock'], maxops=5))
+fams.append(dict(name='day1-ttl48-tick-ny', unit='DAY', init=1, nums=[1], ttl=48, zone=NY, times=[0, 24], clocks=[0, 23, 46, 47, 70, 71, 72, 94, 95],
+                 legacy=[[]], ranges=[(0, 95)], ops=['create', 'tick', 'select', 'clock'], maxops=5))
 for f in fams:
     if c.quick:
         f['graphops'] = f['maxops'] - 2
